@@ -372,8 +372,30 @@ fn stream_threads(fields: &[&str]) -> String {
         fields[3].split('|').map(|p| p.split(',').filter(|x| !x.is_empty()).map(|x| x.to_string()).collect()).collect();
     guarded(move || {
         let rt: &'static jmespath::Runtime = {
+            use jmespath::functions::{ArgumentType as A, CustomFunction, Signature};
             let mut r = jmespath::Runtime::new();
             r.register_builtin_functions();
+            // higher-order custom functions: `ap(&e, x)` / `ap2(&e, x)` evaluate the expression reference on x through the public API
+            // (and so re-enter the runtime — and themselves — from inside a custom function); `cf(x…)` just reports its arguments
+            for name in ["ap", "ap2"] {
+                r.register_function(
+                    name,
+                    Box::new(CustomFunction::new(
+                        Signature::new(vec![A::Expref, A::Any], None),
+                        Box::new(|args: &[Rcvar], ctx: &mut jmespath::Context<'_>| {
+                            let ast = args[0].as_expref().unwrap().clone();
+                            jmespath::Expression::new("<expref>", ast, ctx.runtime).search(args[1].clone())
+                        }),
+                    )),
+                );
+            }
+            r.register_function(
+                "cf",
+                Box::new(CustomFunction::new(
+                    Signature::new(vec![], Some(A::Any)),
+                    Box::new(|args: &[Rcvar], _ctx: &mut jmespath::Context<'_>| Ok(Rcvar::new(Variable::Array(args.to_vec())))),
+                )),
+            );
             Box::leak(Box::new(r))
         };
         let shared: Arc<Vec<Option<jmespath::Expression<'static>>>> = Arc::new(texts.iter().map(|t| rt.compile(t).ok()).collect());
